@@ -192,6 +192,33 @@ fn check_cipher_bytes(key: u32, bytes: &[u8]) -> CaseResult {
             bytes.len()
         );
     }
+    // the result must not depend on where the slice lives: the same ciphertext placed at every
+    // byte offset 1..7 inside a larger buffer (a packed sector decrypted in place) and, for the
+    // encrypting side, the same plaintext placed there
+    for shift in 1..8usize {
+        let mut big = vec![0xA5u8; shift + e.len() + 9];
+        big[shift..shift + e.len()].copy_from_slice(&e);
+        wow_mpq::decrypt_file_data(&mut big[shift..shift + e.len()], key);
+        if &big[shift..shift + e.len()] != bytes || big[..shift].iter().any(|&x| x != 0xA5) || big[shift + e.len()..].iter().any(|&x| x != 0xA5) {
+            vfail!(
+                format!("byte-cipher-depends-on-buffer-position:decrypt:len%4={}", bytes.len() % 4),
+                "decrypt_file_data on a sub-slice at byte offset {shift} of a larger buffer (key={:#x}, len {}) differs from the result on a whole buffer, or touched bytes outside the slice",
+                key,
+                bytes.len()
+            );
+        }
+        let mut big = vec![0x5Au8; shift + bytes.len() + 9];
+        big[shift..shift + bytes.len()].copy_from_slice(bytes);
+        b.encrypt_data(&mut big[shift..shift + bytes.len()], key);
+        if big[shift..shift + bytes.len()] != e[..] || big[..shift].iter().any(|&x| x != 0x5A) || big[shift + bytes.len()..].iter().any(|&x| x != 0x5A) {
+            vfail!(
+                format!("byte-cipher-depends-on-buffer-position:encrypt:len%4={}", bytes.len() % 4),
+                "encrypt_data on a sub-slice at byte offset {shift} of a larger buffer (key={:#x}, len {}) differs from the result on a whole buffer, or touched bytes outside the slice",
+                key,
+                bytes.len()
+            );
+        }
+    }
     // whole words must equal the reference ciphertext
     if key != 0 {
         let mut r = bytes.to_vec();
